@@ -81,6 +81,10 @@ type Sim struct {
 	deadlines []time.Time
 	start     time.Time
 
+	// inSched is set while the scheduler goroutine itself runs harness code
+	// (OnIdle, Invariant): scheduling points are no-ops there.
+	inSched bool
+
 	failed   bool
 	Failures []Failure
 	killed   bool
@@ -324,8 +328,13 @@ func (s *Sim) Run(root func()) {
 			}
 			idle := s.OnIdle
 			s.mu.Unlock()
-			if idle != nil && idle() {
-				continue
+			if idle != nil {
+				s.inSched = true
+				cont := idle()
+				s.inSched = false
+				if cont {
+					continue
+				}
 			}
 			s.Quiescent = true
 			if s.Horizon == 0 {
@@ -355,7 +364,9 @@ func (s *Sim) Run(root func()) {
 		}
 		s.mu.Unlock()
 		if inv != nil {
+			s.inSched = true
 			inv()
+			s.inSched = false
 		}
 		t := rs[s.Choose(len(rs))]
 		q := s.chooseDraw(s.MaxQuantum+2, func(r *rand.Rand) int {
@@ -535,6 +546,9 @@ func Yield(site int) {
 	}
 	if s.killed {
 		dead()
+	}
+	if s.inSched {
+		return
 	}
 	t := s.self()
 	t.site = site
